@@ -271,4 +271,138 @@ Section Importer.
            | Ok st' => update_relations_gff st'
            end
     end.
+
+  (* ================= GTF importer ================= *)
+  Record gtfcfg := mkGtf { g_tkey : str; g_gkey : str; g_sub : str; g_no_genes : bool; g_no_transcripts : bool }.
+
+  (* relations of one GTF line stored under [id] *)
+  Definition gtf_relations (g : gtfcfg) (f0 : row) (id : str) : list rel :=
+    let parent := match dget (g_tkey g) (r_attrs f0) with Some (p :: _) => Some p | _ => None end in
+    let r1 := match parent with Some p => if str_eqb p id then [] else [mkRel p id 1] | None => [] end in
+    let r2 := match dget (g_gkey g) (r_attrs f0) with
+              | Some (gp :: _) =>
+                  (if str_eqb id gp || match parent with Some p => str_eqb id p | None => false end then [] else [mkRel gp id 2])
+                  ++ match parent with Some p => if str_eqb p gp then [] else [mkRel gp p 1] | None => [] end
+              | _ => []
+              end in
+    r1 ++ r2.
+
+  Definition step_gtf (g : gtfcfg) (strat : strategy) (force : list field) (spec : idspec) (st : ist) (f0 : row) : result ist :=
+    match store strat force spec st f0 with
+    | Err e => Err e
+    | Ok (OSkip st') => Ok st'
+    | Ok (OStored st' id) =>
+        Ok (mkSt (s_rows st') (add_rels (s_rels st') (gtf_relations g f0 id)) (s_dups st') (s_auto st'))
+    end.
+
+  Definition pair_eqb2 (a b : str * str) : bool := str_eqb (fst a) (fst b) && str_eqb (snd a) (snd b).
+  Fixpoint dedup_pairs (l : list (str * str)) : list (str * str) :=
+    match l with [] => [] | x :: l' => if existsb (pair_eqb2 x) l' then dedup_pairs l' else x :: dedup_pairs l' end.
+  Fixpoint insert_pair (x : str * str) (l : list (str * str)) : list (str * str) :=
+    match l with [] => [x] | y :: l' => if str_ltb (snd x) (snd y) then x :: l else y :: insert_pair x l' end.
+
+  (* (transcript, gene) pairs: level-1 parents of stored subfeatures, joined to their level-1 parents, by gene *)
+  Definition tg_pairs (g : gtfcfg) (st : ist) : list (str * str) :=
+    let is_sub := fun c => existsb (fun r => str_eqb (r_id r) c && str_eqb (r_ftype r) (g_sub g)) (s_rows st) in
+    let ts := dedup_strs (map rel_parent (filter (fun x => (rel_level x =? 1) && is_sub (rel_child x)) (s_rels st))) in
+    let ps := flat_map (fun t => map (fun x => (t, rel_parent x))
+                                     (filter (fun x => (rel_level x =? 1) && str_eqb (rel_child x) t) (s_rels st))) ts in
+    fold_right insert_pair [] (dedup_pairs ps).
+
+  Definition omin (a b : option Z) : option Z :=
+    match a, b with Some x, Some y => Some (Z.min x y) | Some x, None => Some x | None, y => y end.
+  Definition omax (a b : option Z) : option Z :=
+    match a, b with Some x, Some y => Some (Z.max x y) | Some x, None => Some x | None, y => y end.
+
+  (* SELECT MIN(start), MAX(end), strand, seqid ... WHERE parent = ? AND featuretype == ? *)
+  Definition extent (g : gtfcfg) (st : ist) (p : str) : option (Z * Z * str * str) :=
+    let kids := filter (fun r => str_eqb (r_ftype r) (g_sub g)
+                                 && existsb (fun x => str_eqb (rel_parent x) p && str_eqb (rel_child x) (r_id r)) (s_rels st))
+                       (s_rows st) in
+    match kids with
+    | [] => None
+    | k :: _ =>
+        match fold_right omin None (map r_start kids), fold_right omax None (map r_end kids) with
+        | Some s, Some e => Some (s, e, r_strand k, r_seqid k)
+        | _, _ => None
+        end
+    end.
+
+  Definition DOTs : str := [46%N].
+  Definition DERIVED : str := [103;102;102;117;116;105;108;115;95;100;101;114;105;118;101;100]%N.   (* gffutils_derived *)
+  Definition TRANSCRIPT : str := [116;114;97;110;115;99;114;105;112;116]%N.
+  Definition GENE : str := [103;101;110;101]%N.
+
+  Definition text_clean (s : str) : bool := negb (existsb (fun c => N.eqb c 9 || N.eqb c 10 || N.eqb c 13) s).
+
+  (* the derived features in the order they are written to the temp file *)
+  Fixpoint derive (g : gtfcfg) (st : ist) (ps : list (str * str)) (last_gene : option str) : result (list row) :=
+    match ps with
+    | [] => Ok []
+    | (t, gn) :: ps' =>
+        let mk := fun (ft : str) (a : attrs) (x : Z * Z * str * str) =>
+                    let '(s, e, strand, seqid) := x in
+                    mkRow [] seqid DERIVED ft (Some s) (Some e) DOTs strand DOTs a [] None in
+        let tr := if g_no_transcripts g then Ok []
+                  else match extent g st t with
+                       | Some x => Ok [mk TRANSCRIPT [(g_tkey g, [t]); (g_gkey g, [gn])] x]
+                       | None => Err EValue
+                       end in
+        let ge := if g_no_genes g then Ok []
+                  else if match last_gene with Some l => str_eqb l gn | None => false end then Ok []
+                  else match extent g st gn with
+                       | Some x => Ok [mk GENE [(g_gkey g, [gn])] x]
+                       | None => Err EValue
+                       end in
+        match tr, ge, derive g st ps' (Some gn) with
+        | Ok a, Ok b, Ok c => Ok (a ++ b ++ c)
+        | Err e, _, _ => Err e
+        | _, Err e, _ => Err e
+        | _, _, Err e => Err e
+        end
+    end.
+
+  Definition derived_clean (r : row) : bool :=
+    text_clean (r_seqid r) && text_clean (r_strand r) && forallb (fun kv => forallb text_clean (snd kv)) (r_attrs r)
+    && negb (match r_seqid r with [] => true | _ => false end) && negb (match r_strand r with [] => true | _ => false end).
+
+  (* a derived feature arrives: plain insert, or _do_merge(f, "merge") followed by an UPDATE of the
+     attributes only (a no-op when a fresh <id>_n was generated: the feature is then dropped, but
+     the counter and the duplicates table keep the trace) *)
+  Definition insert_derived (force : list field) (spec : idspec) (st : ist) (f0 : row) : result ist :=
+    if negb (derived_clean f0) then Err EOther else
+    match id_handler spec f0 (s_auto st) with
+    | Err e => Err e
+    | Ok (id, a) =>
+        let f := set_bin (set_id id f0) in
+        let st := mkSt (s_rows st) (s_rels st) (s_dups st) a in
+        if has_id id (s_rows st) then
+          let to_merge := filter (same_checked force f) (candidates st id) in
+          match rev to_merge with
+          | [] => match fresh_auto (length (s_rows st)) id (s_rows st) a with
+                  | None => Err EOther
+                  | Some (nid, a') => Ok (mkSt (s_rows st) (s_rels st) (s_dups st ++ [(id, nid)]) a')
+                  end
+          | target :: _ =>
+              Ok (mkSt (update_id (r_id target) (set_attrs (merge_attrs (r_attrs f) to_merge)) (s_rows st))
+                       (s_rels st) (s_dups st) a)
+          end
+        else Ok (mkSt (s_rows st ++ [f]) (s_rels st) (s_dups st) a)
+    end.
+
+  Definition update_relations_gtf (g : gtfcfg) (force : list field) (spec : idspec) (st : ist) : result ist :=
+    if g_no_genes g && g_no_transcripts g then Ok st else
+    match derive g st (tg_pairs g st) None with
+    | Err e => Err e
+    | Ok ds => run_steps (insert_derived force spec) ds st
+    end.
+
+  Definition import_gtf (g : gtfcfg) (strat : strategy) (force : list field) (spec : idspec) (fs : list row) (st : ist) : result ist :=
+    match fs with
+    | [] => Err EValue
+    | _ => match run_steps (step_gtf g strat force spec) fs st with
+           | Err e => Err e
+           | Ok st' => update_relations_gtf g force spec st'
+           end
+    end.
 End Importer.
